@@ -1,6 +1,8 @@
 package spec
 
 import (
+	"go/ast"
+
 	"lndlint/internal/an"
 )
 
@@ -27,7 +29,7 @@ func runC02(r *an.Run) {
 	p := r.Prog
 
 	r.Obl("SignNextCommitment.persist-dominates-signature", "PATH",
-		"MUST(channelState.AppendRemoteCommitChain ok -> every success return of SignNextCommitment) and BEFORE(it, commitChains.Remote.addCommitment)",
+		"MUST(channelState.AppendRemoteCommitChain ok -> every success return of SignNextCommitment) and BEFORE(it, commitChains.Remote.addCommitment); the value persisted is the diff createCommitDiff built from the view that was signed (fetchCommitmentView(Remote, ..)), and that same view is what extends the remote chain",
 		"a signature handed out before the commit diff is durable cannot be retransmitted after a crash (C02, C03, C06)", 3,
 		func(o *an.Obl) {
 			f := p.Func("lnwallet.LightningChannel.SignNextCommitment")
@@ -37,19 +39,54 @@ func runC02(r *an.Run) {
 			if need(o, f, "commitChains.Remote.addCommitment", add, 1) {
 				mustPass(o, f, "AppendRemoteCommitChain", persist, an.OkErrNil, add)
 			}
+			// what is made durable is the diff built from the view that was
+			// signed, and the same view then extends the in-memory chain
+			c02ParamsStable(o, f)
+			diff := f.Calls(an.CalleeIs(lw+"LightningChannel.createCommitDiff"), false)
+			if needExactly(o, f, "createCommitDiff", diff, 1) && needExactly(o, f, "AppendRemoteCommitChain", persist, 1) && needExactly(o, f, "addCommitment", add, 1) {
+				view := f.ArgCanon(diff[0])[0]
+				c02ArgsAre(o, f, diff[0], "createCommitDiff", map[int]string{0: `^\$recv\.fetchCommitmentView\(lntypes\.Remote, `})
+				c02ArgsAre(o, f, persist[0], "AppendRemoteCommitChain", map[int]string{0: `^\$recv\.createCommitDiff\(`})
+				c02ArgsAre(o, f, add[0], "commitChains.Remote.addCommitment", map[int]string{0: "^" + regexpQuote(view) + "$"})
+				if recv := f.Canon(add[0].Node.(*ast.CallExpr).Fun); recv != "$recv.commitChains.Remote.addCommitment" {
+					o.FailAt(f.ID+"#extended-chain", add[0].Where(), "the signed view is added through %s, expected the remote commitment chain", recv)
+				}
+				mustPass(o, f, "createCommitDiff", diff, an.OkErrNil, persist)
+			}
 		})
 
 	r.Obl("RevokeCurrentCommitment.persist-dominates-revocation", "PATH",
-		"MUST(channelState.UpdateCommitment ok -> every success return of RevokeCurrentCommitment)",
+		"MUST(channelState.UpdateCommitment ok -> every success return of RevokeCurrentCommitment); UpdateCommitment is given the new tail of the local chain (tail().toDiskCommit(Local), read after the one advanceTail of the local chain) and getUnsignedAckedUpdates()",
 		"a revocation released before the new local commitment is durable lets a reload broadcast a revoked state", 2,
 		func(o *an.Obl) {
 			f := p.Func("lnwallet.LightningChannel.RevokeCurrentCommitment")
 			persist := f.Calls(an.CalleeIs("chanstate.OpenChannel.UpdateCommitment"), false)
 			mustPass(o, f, "UpdateCommitment", persist, an.OkErrNil, f.SuccessReturns())
+			// the commitment made durable is the new tail of the local chain
+			// (after advanceTail) together with the acked updates still to sign
+			if needExactly(o, f, "UpdateCommitment", persist, 1) {
+				c02ArgsAre(o, f, persist[0], "UpdateCommitment", map[int]string{
+					0: `^\$recv\.commitChains\.Local\.tail\(\)\.toDiskCommit\(lntypes\.Local\)$`,
+					1: `^\$recv\.getUnsignedAckedUpdates\(\)$`,
+				})
+				adv := f.Calls(an.CalleeIs(lw+"commitmentChain.advanceTail"), false)
+				if needExactly(o, f, "commitChains.Local.advanceTail", adv, 1) {
+					if recv := f.Canon(adv[0].Node.(*ast.CallExpr).Fun); recv != "$recv.commitChains.Local.advanceTail" {
+						o.FailAt(f.ID+"#advanced-chain", adv[0].Where(), "RevokeCurrentCommitment advances %s, expected the local chain", recv)
+					}
+					// tail() is read after the tail was advanced
+					for _, tl := range f.Calls(an.CalleeIs(lw+"commitmentChain.tail"), false) {
+						if !f.Before([]an.Site{tl}, persist[0]) || f.Before([]an.Site{tl}, adv[0]) {
+							continue // the trace statement before the advance
+						}
+						before(o, f, "commitChains.Local.advanceTail", adv, "the tail() that is persisted", []an.Site{tl})
+					}
+				}
+			}
 		})
 
 	r.Obl("ReceiveRevocation.persist-dominates-advance", "PATH",
-		"MUST(channelState.AdvanceCommitChainTail ok -> commitChains.Remote.advanceTail and every success return)",
+		"MUST(channelState.AdvanceCommitChainTail ok -> commitChains.Remote.advanceTail and every success return); AdvanceCommitChainTail is given the forwarding package built for this revocation, unsignedLocalUpdates(remote tip's local index, local tail's local index) and the two output indexes found on the revoked commitment",
 		"advancing the in-memory remote chain before the revocation is durable desynchronises memory and disk", 3,
 		func(o *an.Obl) {
 			f := p.Func("lnwallet.LightningChannel.ReceiveRevocation")
@@ -59,10 +96,27 @@ func runC02(r *an.Run) {
 				mustPass(o, f, "AdvanceCommitChainTail", persist, an.OkErrNil, adv)
 			}
 			mustPass(o, f, "AdvanceCommitChainTail", persist, an.OkErrNil, f.SuccessReturns())
+			// what is made durable: the forwarding package built for this
+			// revocation, our updates the peer still has to sign (bounds of
+			// unsignedLocalUpdates: remote tip's and local tail's local index)
+			// and the output indexes found on the revoked commitment
+			if needExactly(o, f, "AdvanceCommitChainTail", persist, 1) {
+				c02ArgsAre(o, f, persist[0], "AdvanceCommitChainTail", map[int]string{
+					0: `^channeldb\.NewFwdPkg\(`,
+					1: `^\$recv\.unsignedLocalUpdates\(\$recv\.commitChains\.Remote\.tip\(\)\.messageIndices\.Local, \$recv\.commitChains\.Local\.tail\(\)\.messageIndices\.Local\)$`,
+					2: `^lnwallet\.findOutputIndexesFromRemote\(.*\)$`,
+					3: `^lnwallet\.findOutputIndexesFromRemote\(.*\)#1$`,
+				})
+				if needExactly(o, f, "commitChains.Remote.advanceTail", adv, 1) {
+					if recv := f.Canon(adv[0].Node.(*ast.CallExpr).Fun); recv != "$recv.commitChains.Remote.advanceTail" {
+						o.FailAt(f.ID+"#advanced-chain", adv[0].Where(), "ReceiveRevocation advances %s, expected the remote chain", recv)
+					}
+				}
+			}
 		})
 
 	r.Obl("memory-after-disk", "PATH",
-		"OpenChannel.UpdateCommitment assigns c.LocalCommitment only after Db.UpdateChannelCommitment ok; ChannelStateDB.AdvanceCommitChainTail assigns channel.RemoteCommitment only after its kvdb.Update ok; the three OpenChannel wrappers refuse restored channels and delegate to the store",
+		"OpenChannel.UpdateCommitment assigns c.LocalCommitment only after Db.UpdateChannelCommitment ok, and assigns the commitment it handed to the store; ChannelStateDB.AdvanceCommitChainTail assigns channel.RemoteCommitment (or any part of it) exactly once, after its kvdb.Update ok and never inside the transaction closure, from the Commitment of the diff read under commitDiffKey in that transaction; no other non-test function writes the two commitments or a part of them (the funding flow fills parts of the not yet persisted partialState); the three OpenChannel wrappers refuse restored channels and delegate to the store",
 		"the in-memory commitment is what ForceClose broadcasts; it must never run ahead of disk", 8,
 		func(o *an.Obl) {
 			f := p.Func("chanstate.OpenChannel.UpdateCommitment")
@@ -71,13 +125,55 @@ func runC02(r *an.Run) {
 			if need(o, f, "assignment of LocalCommitment", asg, 1) {
 				mustPass(o, f, "Db.UpdateChannelCommitment", persist, an.OkErrNil, asg)
 			}
+			asg0 := asg
 			mustPass(o, f, "Db.UpdateChannelCommitment", persist, an.OkErrNil, f.SuccessReturns())
 
 			g := p.Func("channeldb.ChannelStateDB.AdvanceCommitChainTail")
 			upd := g.Calls(kvUpdate, false)
-			asg = g.Assigns(an.Field("chanstate.OpenChannel", "RemoteCommitment", nil), false)
-			if need(o, g, "assignment of RemoteCommitment", asg, 1) {
+			// also the writes inside the transaction closure and writes to a
+			// part of the commitment: a closure can be run again or rolled back
+			asg = g.Assigns(c02StoredInto(an.Field("chanstate.OpenChannel", "RemoteCommitment", nil)), true)
+			if needExactly(o, g, "assignment of RemoteCommitment", asg, 1) {
 				mustPass(o, g, "kvdb.Update", upd, an.OkErrNil, asg)
+				// the value is the commitment of the diff read in the transaction
+				if as, ok := asg[0].Node.(*ast.AssignStmt); ok && len(as.Rhs) == 1 {
+					rhs := as.Rhs[0]
+					if st, ok := ast.Unparen(rhs).(*ast.StarExpr); ok {
+						rhs = st.X
+					}
+					obj := c02ObjOf(g, rhs)
+					cl := theLit(g, kvUpdate, "kvdb.Update")
+					var forms []string
+					for _, s := range cl.Assigns(func(fn *an.Func, e ast.Expr) bool { return obj != nil && c02ObjOf(fn, e) == obj }, false) {
+						if a, ok := s.Node.(*ast.AssignStmt); ok && len(a.Rhs) == 1 {
+							forms = append(forms, cl.Canon(a.Rhs[0]))
+						}
+					}
+					o.Site("RemoteCommitment <- %s <- %v", an.Text(as.Rhs[0]), forms)
+					if len(forms) != 1 || !reMatch(`^&channeldb\.deserializeCommitDiff\(bytes\.NewReader\(.*\.Get\(channeldb\.commitDiffKey\)\)\)\.Commitment$`, forms[0]) {
+						o.FailAt(g.ID+"#new-remote-commitment", asg[0].Where(), "the in-memory RemoteCommitment is set from %v, expected the Commitment of the commit diff read under commitDiffKey in the same transaction", forms)
+					}
+				}
+			}
+			for _, s := range f.Assigns(c02StoredInto(an.Field("chanstate.OpenChannel", "LocalCommitment", nil)), true) {
+				found := false
+				for _, a := range asg0 {
+					found = found || a.Node == s.Node
+				}
+				if !found {
+					o.FailAt(f.ID+"#writes-LocalCommitment", s.Where(), "%s writes (a part of) LocalCommitment at %s, which is not the assignment after the store write", f.ID, s.String())
+				}
+			}
+			if len(asg0) == 1 {
+				if as, ok := asg0[0].Node.(*ast.AssignStmt); ok && len(as.Rhs) == 1 {
+					c := f.Canon(as.Rhs[0])
+					o.Site("LocalCommitment <- %s", c)
+					if c != "*$p0" {
+						o.FailAt(f.ID+"#new-local-commitment", asg0[0].Where(), "the in-memory LocalCommitment is set to %s, expected the commitment handed to the store", c)
+					}
+					c02ArgsAre(o, f, persist[0], "Db.UpdateChannelCommitment", map[int]string{0: `^\$recv$`, 1: `^\$p0$`, 2: `^\$p1$`})
+					c02ParamsStable(o, f)
+				}
 			}
 			// writers of the two in-memory commitments in non-test code of the
 			// three packages
@@ -92,8 +188,16 @@ func runC02(r *an.Run) {
 					if fn.Lit != nil {
 						continue
 					}
-					for _, s := range fn.Assigns(an.Field("chanstate.OpenChannel", fld, nil), true) {
+					for _, s := range fn.Assigns(c02StoredInto(an.Field("chanstate.OpenChannel", fld, nil)), true) {
 						o.Site("writer of OpenChannel.%s: %s", fld, s.String())
+						// the funding flow fills in parts of the commitments of
+						// the reservation's partial state, which is not on disk
+						// (and not a channel) before SyncPending
+						if as, ok := s.Node.(*ast.AssignStmt); ok && len(as.Lhs) == 1 && len(fn.Assigns(an.Field("chanstate.OpenChannel", fld, nil), true)) == 0 &&
+							reMatch(`^lnwallet\.LightningWallet\.handle(ChanPointReady|FundingCounterPartySigs|SingleFunderSigs)$`, fn.ID) &&
+							reMatch(`\.partialState\.`+fld+`\.[A-Za-z]+$`, fn.Canon(as.Lhs[0])) {
+							continue
+						}
 						if !allowed[fn.ID] {
 							o.FailAt(fn.ID+"#writes-"+fld, s.Where(), "%s assigns OpenChannel.%s; only the persist-then-assign functions and the restore path may", fn.ID, fld)
 						}
@@ -118,7 +222,7 @@ func runC02(r *an.Run) {
 	commitStoreTransactions(r)
 
 	r.Obl("restore-calls-every-step", "PATH",
-		"NewLightningChannel succeeds only after restoreCommitState ok; restoreCommitState succeeds only after reading RemoteCommitChainTip, UnsignedAckedUpdates, RemoteUnsignedLocalUpdates and restoreStateLogs ok; restoreStateLogs succeeds only after restorePendingRemoteUpdates ok and restorePeerLocalUpdates ok, and restores the peer-unsigned local updates before the pending diff's local updates (log-index order of the local log); restorePendingLocalUpdates is called whenever a pending remote commit exists",
+		"NewLightningChannel succeeds only after restoreCommitState ok; restoreCommitState succeeds only after reading RemoteCommitChainTip, UnsignedAckedUpdates, RemoteUnsignedLocalUpdates and restoreStateLogs ok; restoreStateLogs succeeds only after restorePendingRemoteUpdates ok and restorePeerLocalUpdates ok, and restores the peer-unsigned local updates before the pending diff's local updates (log-index order of the local log); restorePendingLocalUpdates is called whenever a pending remote commit exists; a failed RemoteCommitChainTip read is handed out unless it is ErrNoPendingCommit; every step receives the value its role names: the three diskCommitToMemCommit calls (party, disk commitment, commit points), the chain each converted commitment is added to (pending one last, and always when a pending diff exists), the arguments of restoreStateLogs and of the three log restorers (update list, commitment height), and the log each commitment's HTLCs are restored into",
 		"a restore step that is skipped drops updates that were covered by a signature", 12,
 		func(o *an.Obl) {
 			f := p.Func("lnwallet.NewLightningChannel")
@@ -167,6 +271,7 @@ func runC02(r *an.Run) {
 					}
 				}
 			}
+			c02RestoreRoles(o, p)
 		})
 
 	codecC02(r)
@@ -174,5 +279,6 @@ func runC02(r *an.Run) {
 	modifiedMarkerDiscipline(r)
 	persistRestoreKindAgreement(r)
 	statusWriters(r)
+	c02DiskCopyIntact(r)
 	retrySafeClosures(r, []string{"channeldb", "chanstate"}, `^channeldb\.(ChannelStateDB|ChannelPackager|SwitchPackager)\.|^chanstate\.`, 20, "the channel store's transitions run as kvdb transactions; on the SQL and etcd backends a transaction that hits a serialisation failure is run again, and a closure that continues from the aborted run's value writes a different state than the one it was asked to (C02: the reloaded state is the pre-crash state)")
 }
